@@ -157,7 +157,7 @@ func check(c *fw.Ctx, p prog, limits []int) {
 		if got.Key() != ref.Key() {
 			again := run.Bytecode(bc1, opt)
 			ref2 := run.Bytecode(bc0, base)
-			if again.Key() != got.Key() || ref2.Key() != ref.Key() {
+			if again.Key() == ref2.Key() { // a second pair of runs agrees (texts of a disagreement may vary, e.g. Go stacks)
 				c.Infra("unstable outcome for %s", p.src)
 				return
 			}
